@@ -419,10 +419,11 @@ type Flow struct {
 	// branch as a branch on that comparison (succ 0: cond is true, 1: false).
 	BranchOn func(cond ssa.Value, succ int, s int) (ns int, feasible bool)
 
-	memo  map[flowKey][]code
-	stack map[*ssa.Function]bool
-	res   *FlowResult
-	flags map[*ssa.Function]*flagInfo
+	memo     map[flowKey][]code
+	tagCalls map[*ssa.Call]int16
+	stack    map[*ssa.Function]bool
+	res      *FlowResult
+	flags    map[*ssa.Function]*flagInfo
 }
 
 type flowKey struct {
@@ -452,6 +453,7 @@ type FlowResult struct {
 // function using early returns or a flag with a single exit.
 type code struct {
 	s, tag int8
+	tc     int16 // the inlined call the tag belongs to (index in Flow.tagCalls, 0 = none)
 	f      [2]int8
 }
 
@@ -805,7 +807,24 @@ func (fi *flagInfo) current(x *ssa.Phi, at *ssa.BasicBlock) bool {
 
 // callResultCond: the If condition is (a negation of) the last result of a
 // call to an inlined helper; neg reports the negation.
+func (f *Flow) callID(c *ssa.Call) int16 {
+	if f.tagCalls == nil {
+		f.tagCalls = map[*ssa.Call]int16{}
+	}
+	id, ok := f.tagCalls[c]
+	if !ok {
+		id = int16(len(f.tagCalls) + 1)
+		f.tagCalls[c] = id
+	}
+	return id
+}
+
 func (f *Flow) callResultCond(cond ssa.Value) (isCall bool, neg bool) {
+	ok, neg, _ := f.callResultCondOf(cond)
+	return ok, neg
+}
+
+func (f *Flow) callResultCondOf(cond ssa.Value) (isCall bool, neg bool, which *ssa.Call) {
 	cond, neg = stripNot(cond)
 	var call *ssa.Call
 	switch x := cond.(type) {
@@ -813,16 +832,28 @@ func (f *Flow) callResultCond(cond ssa.Value) (isCall bool, neg bool) {
 		call = x
 	case *ssa.Extract:
 		if c, ok := x.Tuple.(*ssa.Call); ok {
-			if cal := c.Common().StaticCallee(); cal != nil && x.Index == cal.Signature.Results().Len()-1 {
+			if cal := c.Common().StaticCallee(); cal != nil && x.Index == tagIndex(cal.Signature) {
 				call = c
 			}
 		}
 	}
 	if call == nil {
-		return false, neg
+		return false, neg, nil
 	}
 	cal := call.Common().StaticCallee()
-	return cal != nil && f.Inline != nil && f.Inline(cal), neg
+	return cal != nil && f.Inline != nil && f.Inline(cal), neg, call
+}
+
+// tagIndex: the result whose constant value the engine remembers across the
+// return of an inlined helper: the last result of type bool ((v, ok), (ok, err),
+// (pos, match, err)); -1 if there is none.
+func tagIndex(sig *types.Signature) int {
+	for i := sig.Results().Len() - 1; i >= 0; i-- {
+		if bt, ok := sig.Results().At(i).Type().Underlying().(*types.Basic); ok && bt.Kind() == types.Bool {
+			return i
+		}
+	}
+	return -1
 }
 
 // valueOf: what is known of v at the end of block b for code c.
@@ -921,22 +952,19 @@ func (f *Flow) runFn(fn *ssa.Function, entry codes, depth int) codes {
 				} else {
 					o = f.Transfer(ins, int(c.s))
 				}
-				nt := int8(0)
+				nt, ntc := int8(0), int16(0)
 				if f.Tags {
 					switch x := ins.(type) {
 					case *ssa.If, *ssa.UnOp, *ssa.DebugRef, *ssa.Phi, *ssa.BinOp, *ssa.Jump, *ssa.Extract:
-						nt = c.tag
+						nt, ntc = c.tag, c.tc
 					case *ssa.Return:
-						if depth > 0 && len(x.Results) > 0 {
-							last := x.Results[len(x.Results)-1]
-							if bt, ok := last.Type().Underlying().(*types.Basic); ok && bt.Kind() == types.Bool {
-								nt = f.valueOf(last, c, fi, b)
-							}
+						if ti := tagIndex(fn.Signature); depth > 0 && ti >= 0 && ti < len(x.Results) {
+							nt = f.valueOf(x.Results[ti], c, fi, b)
 						}
 					}
 				}
 				for _, s2 := range o.List() {
-					nxt = nxt.add(code{s: int8(s2), tag: nt, f: c.f})
+					nxt = nxt.add(code{s: int8(s2), tag: nt, tc: ntc, f: c.f})
 				}
 			}
 			if f.Inline != nil && depth < 8 {
@@ -953,7 +981,11 @@ func (f *Flow) runFn(fn *ssa.Function, entry codes, depth int) codes {
 								f.memo[k] = v
 							}
 							for _, r := range v {
-								out = out.add(code{s: r.s, tag: r.tag, f: cd.f})
+								nc := code{s: r.s, tag: r.tag, f: cd.f}
+								if r.tag != 0 {
+									nc.tc = f.callID(c)
+								}
+								out = out.add(nc)
 							}
 						}
 						nxt = out
@@ -989,8 +1021,13 @@ func (f *Flow) runFn(fn *ssa.Function, entry codes, depth int) codes {
 		for i, sc := range b.Succs {
 			var out codes
 			isCall, neg := false, false
+			condCall := int16(0)
 			if iff != nil && f.Tags {
-				isCall, neg = f.callResultCond(iff.Cond)
+				var which *ssa.Call
+				isCall, neg, which = f.callResultCondOf(iff.Cond)
+				if isCall {
+					condCall = f.callID(which)
+				}
 			}
 			ev := int8(0)
 			if iff != nil && f.EvalBool != nil {
@@ -1004,7 +1041,7 @@ func (f *Flow) runFn(fn *ssa.Function, entry codes, depth int) codes {
 			}
 			for _, c := range cur {
 				if iff != nil {
-					if isCall && c.tag != 0 {
+					if isCall && c.tag != 0 && c.tc == condCall {
 						truth := (i == 0) != neg
 						if (c.tag == 1) != truth {
 							continue
@@ -1048,8 +1085,8 @@ func (f *Flow) runFn(fn *ssa.Function, entry codes, depth int) codes {
 						}
 						c.s = int8(ns)
 					}
-					if f.Branch != nil || f.Tags {
-						c.tag = 0
+					if isCall && c.tc == condCall {
+						c.tag, c.tc = 0, 0 // consumed by this branch
 					}
 				}
 				out = out.add(c)
